@@ -61,3 +61,50 @@ func VerifH_C10_BGVEvaluatorCopies() {
 	}
 	vCover("C10-bgv-reached")
 }
+
+// Encoder.ShallowCopy for every ratio between the ciphertext ring degree and the plaintext ring degree (gap 1, 2, 4:
+// the scratch buffers the decoder needs depend on it): the copy encodes and decodes like the original, at every
+// level, and using the copy leaves the original's results unchanged.
+func VerifSetup_EncoderParams(t uint64) Parameters {
+	params, err := NewParametersFromLiteral(ParametersLiteral{LogN: 5, LogQ: []int{45, 35}, PlaintextModulus: t})
+	if err != nil {
+		panic(err)
+	}
+	return params
+}
+
+func VerifH_C10_BGVEncoderCopies() {
+	for _, t := range []uint64{193, 97, 17} { // N_T = 32, 16, 8 for N = 32
+		params := VerifSetup_EncoderParams(t)
+		ecd := NewEncoder(params)
+		cpy := ecd.ShallowCopy()
+		n := params.MaxSlots()
+		tag := "t" + vItoa(int(t))
+		vals := make([]uint64, n)
+		for i := range vals {
+			vals[i] = uint64(3*i+1) % t
+		}
+		for level := 0; level <= params.MaxLevel(); level++ {
+			lt := tag + "-L" + vItoa(level)
+			pt, ptc := NewPlaintext(params, level), NewPlaintext(params, level)
+			vAssert(ecd.Encode(vals, pt) == nil, lt+"-original-encodes")
+			vAssert(!vPanics(func() { vAssert(cpy.Encode(vals, ptc) == nil, lt+"-copy-encodes") }), lt+"-copy-Encode-does-not-panic")
+			same := true
+			for k := 0; k <= level; k++ {
+				for j := range pt.Value.Coeffs[k] {
+					same = same && pt.Value.Coeffs[k][j] == ptc.Value.Coeffs[k][j]
+				}
+			}
+			vAssert(same, lt+"-copy-encodes-like-the-original")
+			got, gotc := make([]uint64, n), make([]uint64, n)
+			vAssert(ecd.Decode(pt, got) == nil, lt+"-original-decodes")
+			vAssert(!vPanics(func() { vAssert(cpy.Decode(pt, gotc) == nil, lt+"-copy-decodes") }), lt+"-copy-Decode-does-not-panic")
+			ok := true
+			for i := range vals {
+				ok = ok && got[i] == vals[i] && gotc[i] == vals[i]
+			}
+			vAssert(ok, lt+"-original-and-copy-decode-to-the-input")
+		}
+	}
+	vCover("C10-bgv-encoder-reached")
+}
